@@ -311,7 +311,8 @@ pub fn write_ndjson(path: &std::path::Path, lines: &[Value]) -> std::io::Result<
     }
     let mut f = std::io::BufWriter::new(std::fs::File::create(path)?);
     for l in lines {
-        serde_json::to_writer(&mut f, l)?;
+        let l = tlc_safe(l.clone());
+        serde_json::to_writer(&mut f, &l)?;
         f.write_all(b"\n")?;
     }
     f.flush()
@@ -319,4 +320,41 @@ pub fn write_ndjson(path: &std::path::Path, lines: &[Value]) -> std::io::Result<
 
 pub fn reset_line(run_id: u64, topology: Value) -> Value {
     json!({"ev": "reset", "run": run_id, "seq": 0, "t": 0, "node": -1, "topo": topology})
+}
+
+/// TLC's JSON reader has no null and 32-bit integers: drop null-valued keys, clamp big numbers
+/// (keeping the exact value as a decimal string under `<key>_big`).
+pub fn tlc_safe(v: Value) -> Value {
+    match v {
+        Value::Object(m) => {
+            let mut out = Map::new();
+            for (k, x) in m {
+                match x {
+                    Value::Null => {}
+                    Value::Number(n) => {
+                        let big = n.as_u64().map(|u| u > i32::MAX as u64).unwrap_or(false)
+                            || n.as_i64().map(|i| i < i32::MIN as i64).unwrap_or(false)
+                            || n.as_f64().map(|f| f.fract() != 0.0).unwrap_or(false);
+                        if big {
+                            out.insert(format!("{k}_big"), n.to_string().into());
+                            out.insert(k, (i32::MAX as i64).into());
+                        } else {
+                            out.insert(k, Value::Number(n));
+                        }
+                    }
+                    other => {
+                        out.insert(k, tlc_safe(other));
+                    }
+                }
+            }
+            Value::Object(out)
+        }
+        Value::Array(a) => Value::Array(
+            a.into_iter()
+                .filter(|x| !x.is_null())
+                .map(tlc_safe)
+                .collect(),
+        ),
+        other => other,
+    }
 }
